@@ -57,7 +57,10 @@ inductive Ev where
 
 /-- One entry of the handler's view. -/
 inductive SEv where
-  | incoming (md : MD)            -- request metadata seen by the handler
+  | incoming (md : MD)            -- request metadata seen by the handler (metadata.FromIncomingContext)
+  | deadline                      -- the handler's context has a deadline
+  | outgoing (md : MD)            -- the handler's context carries OUTGOING metadata (a downstream call made
+                                  -- with it would transmit md)
   | got (m : Nat)                 -- RecvMsg delivered message m
   | eof                           -- RecvMsg returned io.EOF (client half-closed)
   | hErr                          -- SetHeader returned an error
